@@ -63,10 +63,31 @@ def gen_message(r, k):
     if r.random() < 0.4:
         add('X-Tag', r.choice(WORDS))
     body = ' '.join(r.choice(WORDS + ['alice', 'zebra']) for _ in range(r.randint(0, 8))) + '\r\n' + 'pad ' * r.randint(0, 30 * (k % 3))
+    searchable = body
+    if r.random() < 0.3:
+        # a MIME message: BODY and TEXT look into every text part and into the header of every nested part, not only the first one
+        # (the boundary shares no letters with any needle; a non-text part's data is not searched, its header is)
+        bnd = '=_07_=' + str(k)
+        hdr.append(f'Content-Type: multipart/{r.choice(["mixed", "alternative"])}; boundary="{bnd}"')
+        parts, seen = [], []
+        for pi in range(r.randint(2, 4)):
+            words = ' '.join(r.choice(WORDS + ['alice', 'zebra', 'hello']) for _ in range(r.randint(0, 4)))
+            kind_ = r.choice(['text/plain', 'text/plain', 'text/html', 'application/octet-stream'] if pi else ['text/plain', 'application/octet-stream'])
+            ph = [f'Content-Type: {kind_}']
+            if r.random() < 0.4:
+                ph.append(f'Content-Description: {r.choice(WORDS + ["zebra", "alice"])}')
+            if r.random() < 0.3:
+                ph.append(f'Content-Disposition: attachment; filename="{r.choice(WORDS)}.txt"')
+            parts.append('--' + bnd + '\r\n' + '\r\n'.join(ph) + '\r\n\r\n' + words + '\r\n')
+            seen.append('\n'.join(ph))
+            if kind_.startswith('text/'):
+                seen.append(words)
+        body = ''.join(parts) + '--' + bnd + '--'
+        searchable = '\n'.join(seen)
     raw = ('\r\n'.join(hdr) + '\r\n\r\n' + body + '\r\n').encode('ascii')
     flags = sorted(set(r.sample([0, 1, 2, 3, 4, 5, 6], r.randint(0, 3))))
     iday = r.randint(1, 27)
-    return dict(raw=raw, fields=fields, body=body, flags=flags, iday=iday, iclock=clock(r), sday=sday, header_text='\r\n'.join(hdr))
+    return dict(raw=raw, fields=fields, body=searchable, flags=flags, iday=iday, iclock=clock(r), sday=sday, header_text='\r\n'.join(hdr))
 
 
 # ---------------------------------------------------------------- key trees
@@ -123,7 +144,8 @@ def lookalike(r, k):
     if t == 'kw':
         return ['kw', k[1], not k[2]]
     if t == 'size':
-        return ['size', not k[1], k[2]]
+        # numbers that differ by 2**61 - 1 have the same Python hash and are different numbers all the same
+        return r.choice([['size', not k[1], k[2]], ['size', k[1], k[2] + (2 ** 61 - 1)]])
     if t == 'env':
         return ['env', r.choice([f for f in ['FROM', 'TO', 'CC', 'BCC', 'SUBJECT'] if f != k[1]]), k[2]]
     if t == 'header':
